@@ -82,7 +82,22 @@ fn range_case<S: ShortGroupSignatureScheme>(v: &Value) -> Value {
                 Some(p2) => match p2.verify(&schema, &nonce) { Ok(_) => "ok", Err(_) => "err" },
                 None => "codec-err",
             };
-            json!({"r":"ok","issue":"ok","create":"ok","verify":ver,"verify_rt":ver2})
+            // the bulletproof itself must be examined: the range proof of a second, independently created presentation of
+            // the same credential under the same request (other blinding, other commitments) does not fit this one
+            let swapped = match Presentation::create(&credentials, &schema, &nonce) {
+                Ok(p2) => {
+                    let mut q = p.clone();
+                    match p2.proofs.get("range-1") {
+                        Some(rp) => {
+                            q.proofs.insert("range-1".to_string(), rp.clone());
+                            match q.verify(&schema, &nonce) { Ok(_) => "ok", Err(_) => "err" }
+                        }
+                        None => "no-range-proof",
+                    }
+                }
+                Err(_) => "create2-err",
+            };
+            json!({"r":"ok","issue":"ok","create":"ok","verify":ver,"verify_rt":ver2,"verify_swapped":swapped})
         }
     }
 }
